@@ -234,7 +234,7 @@ let fault_name = function
   | NoClosureEnv -> "NoClosureEnv" | UpvalueIndexOOB -> "UpvalueIndexOOB"
   | Dyn DynHandle -> "DynHandle" | Dyn DynUpvalue -> "DynUpvalue" | Dyn DynSignature -> "DynSignature"
   | Dyn DynReentry -> "DynReentry" | Dyn DynOpenWrite -> "DynOpenWrite" | Dyn DynCellWidth -> "DynCellWidth"
-let unsup_name = function UnsupInstr -> "UnsupInstr" | UnsupExt -> "UnsupExt" | UnsupNretFallback -> "UnsupNretFallback" | UnsupBoxed -> "UnsupBoxed" | UnsupStackAlias -> "UnsupStackAlias"
+let unsup_name = function UnsupInstr -> "UnsupInstr" | UnsupExt -> "UnsupExt" | UnsupNretFallback -> "UnsupNretFallback" | UnsupBoxed -> "UnsupBoxed"
 
 let add_words b (l : z list) = List.iter (fun w -> Buffer.add_string b (Printf.sprintf " %Lu" (u64_of_z w))) l
 
